@@ -57,7 +57,7 @@ func (a *config) MergeSpoc(d deviceconf.Config) deviceconf.Config {
 					// but behind prepended rules.
 					i = len(aChain.rules)
 					for i > prepend {
-						if aChain.rules[i-1].pairs["-j"] == "DROP" {
+						if isDrop(aChain.rules[i-1], aChains) {
 							i--
 						} else {
 							break
@@ -70,4 +70,18 @@ func (a *config) MergeSpoc(d deviceconf.Config) deviceconf.Config {
 		}
 	}
 	return a
+}
+
+// Rule drops packets, if it jumps to DROP or
+// to some chain like 'droplog', that ends with unconditional DROP.
+func isDrop(ru rule, chains chains) bool {
+	target := ru.pairs["-j"]
+	if target == "DROP" {
+		return true
+	}
+	if c := chains[target]; c != nil && len(c.rules) > 0 {
+		last := c.rules[len(c.rules)-1]
+		return len(last.pairs) == 1 && last.pairs["-j"] == "DROP"
+	}
+	return false
 }
